@@ -522,9 +522,12 @@ class State:
                     lo += 1
                 while hi in ex and hi >= lo:
                     hi -= 1
+            changed = self.bounds.get(s, (-INF, INF)) != (lo, hi)
             self.bounds[s] = (lo, hi)
             if lo > hi:
                 self.dead = True
+            elif changed and self.facts:
+                self._cascade([s])
             return
         if self.lower(e) >= 0:
             return
@@ -532,6 +535,28 @@ class State:
             return
         self.facts.append(e)
         self._propagate(e)
+
+    def _cascade(self, work, budget=48):
+        """interval propagation: a tightened bound is pushed through the recorded facts that mention the symbol"""
+        work = list(work)
+        while work and budget > 0 and not self.dead:
+            s = work.pop()
+            for f in self.facts:
+                if f.coeff(s) == 0:
+                    continue
+                budget -= 1
+                before = [self.bounds.get(x, (-INF, INF)) for x, _ in f.t]
+                self._propagate(f)
+                for (x, _), b in zip(f.t, before):
+                    nb = self.bounds.get(x, (-INF, INF))
+                    if nb != b:
+                        if nb[0] > nb[1]:
+                            self.dead = True
+                            return
+                        if x != s and x not in work:
+                            work.append(x)
+                if budget <= 0:
+                    break
 
     def _propagate(self, e):
         # tighten each symbol's bound from the others' bounds
